@@ -179,6 +179,19 @@ pub fn op_class(m: &Model, op: &Op) -> String {
             // relation of the effective destination as well
             let into = m.k(&b) == K::Dir;
             let eff = if into { tree::join(&b, tree::base(&a)) } else { b.clone() };
+            if matches!(op, Op::Copy { .. } | Op::CopyB { .. }) {
+                // a directory of the source that meets, deeper down in an existing destination,
+                // a link to a directory
+                let nested = m.t.subtree(&a).iter().any(|k| {
+                    k.len() > a.len() && m.k(k) == K::Dir && {
+                        let dst = format!("{}{}", if eff == "/" { "" } else { &eff }, &k[a.len()..]);
+                        m.k(&dst) == K::LinkD
+                    }
+                });
+                if nested {
+                    parts.push("nested:link-dir".into());
+                }
+            }
             parts.push(format!("rel={}", relation(&a, &b)));
             if into {
                 parts.push(format!("into:{}", m.k(&eff).name()));
